@@ -238,6 +238,10 @@ OnAlloc(e) ==
        \cup Chk(~(ok /\ stackLike /\ e.ups = 0 /\ e.cap0 >= 0 /\ (o.fam # "stack" \/ e.t \/ e.b = o.curblk))
                   \/ e.len + 2 * fence <= e.cap0,
                 "C03", "ImpossibleRequestNeverSucceeds", <<o.fam, e.len, e.al, e.cap0, e.cap1>>)
+       \* ... and capacity_left() is usable: a composable request that fits into it whatever the alignment padding
+       \* turns out to be (exact fit included) is served, by a stack-like allocator from its current block
+       \cup Chk(~(e.t /\ e.r = "null" /\ stackLike /\ e.cap0 >= 0 /\ e.al >= 1 /\ e.len >= 1) \/ e.len + 2 * fence + (e.al - 1) > e.cap0,
+                "C18", "CapacityLeftIsUsable", <<o.fam, e.len, e.al, e.cap0>>)
        \cup Chk(~(ok /\ traitsIface) \/ (e.al <= e.mxal /\ IF e.op = "n" THEN e.sz <= e.mxn ELSE e.len <= e.mxa),
                 "C18", "AboveMaxNeverSucceeds", <<o.fam, e.op, e.n, e.sz, e.al, e.mxn, e.mxa, e.mxal>>)
        \* a collection serves a request through its traits only at the alignment its node size guarantees: an
@@ -257,6 +261,11 @@ OnAlloc(e) ==
        \cup Chk(~(OrderedList(o) /\ e.op = "a" /\ ~e.t /\ e.ups > 0 /\ need >= 1) \/ ~RunFree(o, {i \in mine : i <= Len(st.blocks) - e.ups}, need),
                 "C04", "NoGrowthWhileRunFree", <<o.type, e.n, e.sz, need, e.fn0, e.ups>>)
        \cup Chk(~(IsPoolLike(o) /\ ~ok) \/ e.fn1 >= e.fn0, "C04", "FailureKeepsCapacity", <<o.fam, e.fn0, e.fn1>>)
+       \* a free node of the right bucket is handed out: the composable interface refuses a valid single-node request
+       \* (size up to and including max_node_size(), alignment the size guarantees) only when that bucket is empty
+       \cup Chk(~(IsPoolLike(o) /\ e.t /\ e.op = "n" /\ e.r = "null" /\ e.fn0 > 0 /\ e.sz >= 1 /\ e.sz <= e.mxn
+                   /\ e.al <= AlignmentFor(IF o.fam = "pool" THEN o.ns ELSE e.sz)),
+                "C04", "FreeNodeIsUsable", <<o.fam, o.type, e.sz, e.al, e.fn0, e.mxn>>)
        \cup Chk(~(ok /\ stackLike /\ e.ups = 0 /\ e.cap0 >= 0 /\ (o.fam # "stack" \/ e.b = o.curblk)) \/
                   (e.cap0 - e.cap1 >= e.len + 2 * fence /\ e.cap0 - e.cap1 < e.len + 2 * fence + Max(e.al, 1)),
                 "C18", "StackCapacityMovesExactly", <<o.fam, e.cap0, e.cap1, e.len, e.al>>)
